@@ -53,7 +53,74 @@ fn side(o: &Point2, d: &Vector2, p: &Point2) -> f64 {
     d.x * (p.y - o.y) - d.y * (p.x - o.x)
 }
 
+
+/// Lines that run almost parallel to long edges of a large outline (coordinates in the tens of thousands,
+/// crossing angles of 1e-4 rad and below). Vertices and line points are integers, so which edges are properly
+/// crossed is decided in exact integer arithmetic; every such edge must be reported exactly once.
+fn judge_shallow(case: &Case, l: &mut Local) {
+    let mk = || serde_json::to_value(case).unwrap();
+    let k = case.size as i64;
+    let vi: Vec<(i64, i64)> = case.verts.iter().map(|c| (c[0] as i64 * k, c[1] as i64 * k)).collect();
+    let pts: Vec<Point2> = vi.iter().map(|c| Point2::new(c.0 as f64, c.1 as f64)).collect();
+    let curve = match Curve2::from_points(&pts, 1e-9, false) {
+        Ok(c) => c,
+        Err(_) => return,
+    };
+    if curve.count() != pts.len() {
+        return;
+    }
+    l.bucket("large outline with shallow lines");
+    for swap in [false, true] {
+        for a in [-3i64, -1, 1, 2, 5] {
+            for b in [-2i64, 1, 3, 7] {
+                for base in [0i64, k, 2 * k] {
+                    // P and Q far outside the outline on either side, a few units off a lattice line
+                    let (p, q) = if swap { ((base + a, -k), (base + b, 4 * k)) } else { ((-k, base + a), (4 * k, base + b)) };
+                    l.eval();
+                    let side = |u: (i64, i64)| ((q.0 - p.0) as i128) * ((u.1 - p.1) as i128) - ((q.1 - p.1) as i128) * ((u.0 - p.0) as i128);
+                    if vi.iter().any(|u| side(*u) == 0) {
+                        l.gray("shallow line exactly through a vertex");
+                        continue;
+                    }
+                    let crossed: Vec<usize> = (0..vi.len() - 1).filter(|i| (side(vi[*i]) > 0) != (side(vi[*i + 1]) > 0)).collect();
+                    // parameters of the crossings along the line (as fractions of PQ), to rule out crossings so
+                    // close together that the routine is entitled to merge them
+                    let ts: Vec<f64> = crossed.iter().map(|i| {
+                        let (u, v) = (vi[*i], vi[*i + 1]);
+                        let (su, sv) = (side(u) as f64, side(v) as f64);
+                        let w = su / (su - sv);
+                        let x = (u.0 as f64 + (v.0 - u.0) as f64 * w, u.1 as f64 + (v.1 - u.1) as f64 * w);
+                        ((x.0 - p.0 as f64) * (q.0 - p.0) as f64 + (x.1 - p.1 as f64) * (q.1 - p.1) as f64) / (((q.0 - p.0) as f64).powi(2) + ((q.1 - p.1) as f64).powi(2))
+                    }).collect();
+                    let mut sorted = ts.clone();
+                    sorted.sort_by(|x, y| x.partial_cmp(y).unwrap());
+                    if sorted.windows(2).any(|w| (w[1] - w[0]).abs() < 1e-6) {
+                        l.gray("two crossings closer than the routine's merge distance");
+                        continue;
+                    }
+                    let ray = Ray::new(Point2::new(p.0 as f64, p.1 as f64), Vector2::new((q.0 - p.0) as f64, (q.1 - p.1) as f64));
+                    match guarded(|| curve.ray_intersections(&ray)) {
+                        Ok(got) => {
+                            let mut ge: Vec<usize> = got.iter().map(|x| x.1).collect();
+                            ge.sort();
+                            l.outcome(hash_of(&("shallow", crossed.len().min(4))));
+                            l.check("every edge properly crossed by a nearly parallel line is reported once", "", ge == crossed, mk, || format!("line ({},{}) -> ({},{}): edges {:?} reported, {:?} crossed", p.0, p.1, q.0, q.1, ge, crossed));
+                        }
+                        Err(m) => {
+                            l.check("line-polyline search returns", "panic", false, mk, || m.clone());
+                        }
+                    }
+                }
+            }
+        }
+    }
+}
+
 pub fn judge(case: &Case, l: &mut Local) {
+    if case.family == "shallow" {
+        judge_shallow(case, l);
+        return;
+    }
     let mk = || serde_json::to_value(case).unwrap();
     let lattice = case.family.is_empty();
     let pts: Vec<Point2> = if lattice {
@@ -264,6 +331,13 @@ pub fn cases(tier: Tier) -> Vec<Case> {
         };
         out.push(Case { verts: s.iter().map(|i| lat[*i].to_vec()).collect(), family: String::new(), size: 0, origin_step: step });
     }
+    // large outlines (lattice sequences times 10^4 and 10^2) against nearly parallel lines
+    let lat3 = gen::lattice2(3);
+    for s in gen::seqs(lat3.len(), 3, 4) {
+        for k in [10_000usize, 100] {
+            out.push(Case { verts: s.iter().map(|i| lat3[*i].to_vec()).collect(), family: "shallow".into(), size: k, origin_step: 1 });
+        }
+    }
     for fam in gen::LARGE_FAMILIES {
         for n in gen::LARGE_SIZES {
             out.push(Case { verts: vec![], family: fam.into(), size: n, origin_step: 1 });
@@ -276,7 +350,7 @@ pub fn run(tier: Tier) -> i32 {
     let mut cx = Ctx::new("C06", tier, "exploration");
     cx.rule = "every vertex sequence over the 4x4 lattice up to the length bound, and 7 structured large families x 15 sizes (5..5000 edges: every QBVH occupancy and depth), x origins on a grid (inside, outside, behind, on vertices) x 14 directions (axis-parallel, zero components, non-unit, both signs, nearly parallel to edges); oracle = the property's own definition (sort+dedup of the per-edge routine over every edge) plus an independent closed form. distinct = distinct polylines".into();
     cx.bounds = json!({"lattice": 4, "seq_len": tier.pick(4, 5), "origin_subsampling_longest": tier.pick(3, 5), "directions": DIRS.len(), "large_sizes": gen::LARGE_SIZES});
-    cx.require(&["line exactly through an end vertex", "lattice polyline", "structured large polyline", "line misses", "two crossings", "other crossing count", "axis-parallel line"]);
+    cx.require(&["line exactly through an end vertex", "lattice polyline", "structured large polyline", "line misses", "two crossings", "other crossing count", "axis-parallel line", "large outline with shallow lines"]);
     cx.assume("an unmatched parameter is gray only when the contact is at a vertex whose two neighbours lie on the same side of the line (graze) or at an end vertex; a transversal crossing through a vertex must be reported");
     let cs = cases(tier);
     let l = sweep(&cs, judge);
